@@ -455,14 +455,14 @@ func (r *patchRunner) Apply(filename string, f *ast.File) (fout *ast.File, comme
 			}
 
 			snap = snap.Diff(fout, cl)
-			cleanupFilePos(r.fset.File(fout.Pos()), cl, fout.Comments)
+			fout.Comments = cleanupFilePos(r.fset.File(fout.Pos()), cl, fout.Comments)
 		}
 	}
 
 	return fout, comments, matched
 }
 
-func cleanupFilePos(tfile *token.File, cl engine.Changelog, comments []*ast.CommentGroup) {
+func cleanupFilePos(tfile *token.File, cl engine.Changelog, comments []*ast.CommentGroup) []*ast.CommentGroup {
 	linesToDelete := make(map[int]struct{})
 	for _, dr := range cl.ChangedIntervals() {
 		if dr.Start == token.NoPos {
@@ -500,4 +500,15 @@ func cleanupFilePos(tfile *token.File, cl engine.Changelog, comments []*ast.Comm
 	for i := len(lines) - 1; i >= 0; i-- {
 		tfile.MergeLine(lines[i])
 	}
+
+	// Drop the comment groups that lost all their comments. Code that
+	// walks the comments of a file, such as astutil.DeleteNamedImport,
+	// expects every group to have at least one comment.
+	kept := comments[:0:0]
+	for _, cg := range comments {
+		if len(cg.List) > 0 {
+			kept = append(kept, cg)
+		}
+	}
+	return kept
 }
